@@ -645,6 +645,52 @@ namespace
                 if (overlap)
                     R.count("c10.updates_with_overlapping_blocks");
             }
+            // accumulate() is a const query: concurrent calls on the same routed graph must each return the
+            // upstream integral of their own source (C03), whatever the other threads ask for
+            {
+                std::vector<double> srcv(n);
+                for (auto& v : srcv)
+                    v = rng.uniform(0.0, 3.0);
+                arr_t src_arr = to_arr(env.g, srcv);
+                const graph_t& cg = *PG.graph;
+                std::vector<double> want_scalar = flat_vec(cg.accumulate(1.0));
+                std::vector<double> want_array = flat_vec(cg.accumulate(src_arr));
+                std::vector<double> got_scalar, got_array;
+                const int rounds = 3;
+                bool differ = false;
+                for (int rd = 0; rd < rounds && !differ; ++rd)
+                {
+                    std::thread ta(
+                        [&]()
+                        {
+                            for (int q = 0; q < 4; ++q)
+                                got_scalar = flat_vec(cg.accumulate(1.0));
+                        });
+                    std::thread tb(
+                        [&]()
+                        {
+                            arr_t acc = arr_t::from_shape(grid_shape_vec(env.g));
+                            for (int q = 0; q < 4; ++q)
+                            {
+                                cg.accumulate(acc, src_arr);
+                                got_array = flat_vec(acc);
+                            }
+                        });
+                    ta.join();
+                    tb.join();
+                    for (std::size_t i = 0; i < n && !differ; ++i)
+                        if (bits(got_scalar[i]) != bits(want_scalar[i]) || bits(got_array[i]) != bits(want_array[i]))
+                        {
+                            differ = true;
+                            R.violation("C03", "concurrent_calls_differ",
+                                        witness(in, "node " + std::to_string(i) + ": two threads calling accumulate() with different sources on the same graph: scalar "
+                                                        + jhex(got_scalar[i]) + " (sequential " + jhex(want_scalar[i]) + "), array " + jhex(got_array[i]) + " (sequential "
+                                                        + jhex(want_array[i]) + ")"));
+                        }
+                }
+                R.count("c03.concurrent_accumulate_rounds", rounds);
+            }
+
             // kernels: breadth-first upstream (order dependent) and any-order, parallel vs sequential
             std::vector<double> kin(n);
             for (auto& v : kin)
@@ -739,7 +785,7 @@ main(int argc, char** argv)
                                else
                                    pool_case(R_, rng, delays, thorough ? 5000 : 2000);
                            }
-                           else if (prop == "C10")
+                           else if (prop == "C10" || prop == "C03" || prop == "C04" || prop == "C06")
                                graph_case(R_, rng, delays, max_side, repeats);
                            else
                            {
